@@ -2,7 +2,7 @@
    Conn/Session.v, Conn/RecvGate.v, Framing/FramingProofs.v, Conn/TasBounds.v, Conn/NoPanic.v (on top of the
    ownership invariant of Conn/Own*.v).  Nothing else may be added. *)
 From MQ Require Import Base.Prelude Framing.Framing Conn.Types Conn.ConnRecord Conn.Step Corr.ConnTrace
-                       Conn.RecvGate Conn.Session Conn.Run Conn.TopicAlias Conn.Own Conn.OwnFrame Conn.OwnStep Conn.TasBounds Conn.NoPanic.
+                       Conn.RecvGate Conn.Session Conn.Run Conn.TopicAlias Conn.Own Conn.OwnFrame Conn.OwnStep Conn.TasBounds Conn.NoPanic Conn.Witness.
 
 (* every state: after the transport is reported closed the object is Disconnected with an empty
    frame builder ... *)
@@ -67,6 +67,16 @@ Print Assumptions C05_step_keeps_alias_bounds.
    after it —, or a received frame that is neither delivered, answered nor reported, is a violation) and by
    the correspondence with the model; totality and termination of the model functions are by construction
    (structural recursion accepted by the kernel).  Known finding F-05c is reported as KNOWN-FINDING. *)
+
+(* "every received frame is delivered, answered or reported" is FALSE of the faithful model and of the code for one
+   class of input (known finding F-05c): a retransmitted QoS 2 PUBLISH whose identifier is in the handled set,
+   arriving while the connection is not established, produces no event at all *)
+Theorem C05_every_frame_has_an_effect_refuted :
+  exists c, run_state w05c_g (conn_new w05c_g V311) [OSetAutoPub true; ORestoreQos2 [1]] = Some c /\
+            mem (k_pid w05c_pub) (c_qos2 c) = true /\
+            exists c', step w05c_g c (ORecv [52;5;0;1;116;0;1] (PROk w05c_pub)) = Ok (c', [], [0]).
+Proof. exact w05c_refutes. Qed.
+Print Assumptions C05_every_frame_has_an_effect_refuted.
 
 Example C05_nonvacuous :
   let g := mkCfg RClient 65535 2 in
